@@ -5,6 +5,7 @@ import (
 	"fmt"
 	"io"
 	"math/big"
+	"os"
 	"os/exec"
 	"strings"
 	"time"
@@ -25,6 +26,12 @@ type Solver struct {
 	Unknown int
 	saved   []savedState
 	lastErr string
+	seed    int
+	stack   [][]*Term // asserted terms per frame (frame 0 = base)
+	fb      *Solver   // non-incremental fallback process
+	useFB   bool
+	incTimeout int
+	Fallbacks int
 }
 
 type savedState struct {
@@ -58,6 +65,11 @@ func NewSolver(name string, timeoutMs int) (*Solver, error) {
 		return nil, err
 	}
 	s := &Solver{cmd: cmd, in: in, out: bufio.NewReaderSize(outp, 1<<20), name: name, timeout: timeoutMs}
+	if f := os.Getenv("GOSYM_SMTLOG"); f != "" {
+		if w, err := os.OpenFile(fmt.Sprintf("%s.%d", f, cmd.Process.Pid), os.O_CREATE|os.O_WRONLY|os.O_TRUNC, 0o644); err == nil {
+			s.log = w
+		}
+	}
 	s.Reset()
 	return s, nil
 }
@@ -75,13 +87,37 @@ func (s *Solver) Reset() {
 		s.send("(set-logic ALL)\n")
 		s.send(fmt.Sprintf("(set-option :tlimit-per %d)\n", s.timeout))
 	} else {
-		s.send(fmt.Sprintf("(set-option :timeout %d)\n", s.timeout))
+		to := s.timeout
+		if s.incTimeout > 0 {
+			to = s.incTimeout
+		}
+		s.send(fmt.Sprintf("(set-option :timeout %d)\n", to))
+		if s.seed != 0 {
+			s.send(fmt.Sprintf("(set-option :smt.random_seed %d)\n(set-option :sat.random_seed %d)\n", s.seed, s.seed))
+		}
 	}
 	s.p = &printer{defined: map[int]bool{}, decl: map[string]bool{}, ufdecl: map[string]bool{}}
 	s.frames = nil
+	s.stack = [][]*Term{nil}
+	s.useFB = false
+}
+
+// WithFallback attaches a second solver process used non-incrementally when the incremental one gives up.
+func (s *Solver) WithFallback(incTimeoutMs int) error {
+	fb, err := NewSolver(s.name, s.timeout)
+	if err != nil {
+		return err
+	}
+	s.fb = fb
+	s.incTimeout = incTimeoutMs
+	s.Reset()
+	return nil
 }
 
 func (s *Solver) Close() {
+	if s.fb != nil {
+		s.fb.Close()
+	}
 	s.send("(exit)\n")
 	s.in.Close()
 	done := make(chan struct{})
@@ -112,6 +148,7 @@ func (s *Solver) Assert(t *Term) {
 	if t.IsConst() && t.B {
 		return
 	}
+	s.stack[len(s.stack)-1] = append(s.stack[len(s.stack)-1], t)
 	r := s.emit(t)
 	s.send("(assert " + r + ")\n")
 }
@@ -131,6 +168,7 @@ func (s *Solver) Push() {
 		snapUf[k] = true
 	}
 	s.saved = append(s.saved, savedState{snapDefs, snapDecl, snapUf})
+	s.stack = append(s.stack, nil)
 	s.send("(push 1)\n")
 }
 
@@ -138,8 +176,11 @@ func (s *Solver) Pop() {
 	st := s.saved[len(s.saved)-1]
 	s.saved = s.saved[:len(s.saved)-1]
 	s.p.defined, s.p.decl, s.p.ufdecl = st.defs, st.decl, st.uf
+	s.stack = s.stack[:len(s.stack)-1]
 	s.send("(pop 1)\n")
 }
+
+var slowLog = os.Getenv("GOSYM_SLOW") != ""
 
 type Result int
 
@@ -168,18 +209,66 @@ func (s *Solver) Check() Result {
 	}
 	s.Queries++
 	s.Time += time.Since(t0)
+	if s.log != nil {
+		fmt.Fprintf(s.log, "; -> %s in %.2fs\n", line, time.Since(t0).Seconds())
+	}
+	if slowLog && time.Since(t0) > 2*time.Second {
+		fmt.Printf("  slow query %.1fs -> %s\n", time.Since(t0).Seconds(), line)
+	}
+	s.useFB = false
 	switch line {
 	case "sat":
 		return Sat
 	case "unsat":
 		return Unsat
-	case "unknown", "timeout":
-		s.Unknown++
-		return Unknown
 	}
-	// error or anything else: inconclusive
+	if line != "unknown" && line != "timeout" {
+		s.lastErr = line
+	}
+	// incremental mode gave up (or errored): decide the same assertion set from scratch in a fresh context,
+	// where z3 applies its full preprocessing
+	if s.fb != nil {
+		s.Fallbacks++
+		r := s.fb.solveFresh(s.stack)
+		s.Time += s.fb.Time
+		s.fb.Time = 0
+		if r != Unknown {
+			s.useFB = r == Sat
+			return r
+		}
+		s.lastErr = s.fb.lastErr
+	}
 	s.Unknown++
-	s.lastErr = line
+	return Unknown
+}
+
+func (s *Solver) solveFresh(stack [][]*Term) Result {
+	s.Reset()
+	for _, fr := range stack {
+		for _, t := range fr {
+			r := s.emit(t)
+			s.send("(assert " + r + ")\n")
+		}
+	}
+	t0 := time.Now()
+	s.send("(check-sat)\n")
+	line := s.readLine()
+	for line == "" {
+		line = s.readLine()
+	}
+	s.Time += time.Since(t0)
+	if s.log != nil {
+		fmt.Fprintf(s.log, "; fresh -> %s in %.2fs\n", line, time.Since(t0).Seconds())
+	}
+	switch line {
+	case "sat":
+		return Sat
+	case "unsat":
+		return Unsat
+	}
+	if line != "unknown" && line != "timeout" {
+		s.lastErr = line
+	}
 	return Unknown
 }
 
@@ -199,6 +288,9 @@ func (s *Solver) CheckWith(t *Term) Result {
 
 // Model returns values for the given variables; must follow a Sat Check() in the same frame.
 func (s *Solver) Model(vars []*Term) map[string]string {
+	if s.useFB && s.fb != nil {
+		return s.fb.Model(vars)
+	}
 	out := map[string]string{}
 	if len(vars) == 0 {
 		return out
